@@ -64,6 +64,7 @@ m("C09","area1-last-segment-dropped","flat.go","	for i := offset + stride; i < e
 m("C10","revert-precision","bigxy/big_cga.go","	dx1.SetPrec(exactPrec).SetFloat64(vectorEnd[0])","	dx1.SetFloat64(vectorEnd[0])","fallback-exact/bigxy.OrientationIndex")
 m("C10","epsilon-too-small","bigxy/big_cga.go","var dpSafeEpsilon = 1e-15","var dpSafeEpsilon = 1e-17","filter-constant/bigxy.dpSafeEpsilon/value")
 m("C10","epsilon-setter","bigxy/big_cga.go","func orientationBasedOnSign(x float64) orientation.Type {","// SetEpsilon tunes the filter.\nfunc SetEpsilon(e float64) { dpSafeEpsilon = e }\n\nfunc orientationBasedOnSign(x float64) orientation.Type {","filter-constant/bigxy.dpSafeEpsilon/immutable")
+m("C10","filter-fallthrough-decides-collinear","bigxy/big_cga.go","		return orientationBasedOnSign(det)\n	}\n\n	return 2\n}","		return orientationBasedOnSign(det)\n	}\n\n	return orientation.Collinear\n}","filter-structure/bigxy.orientationIndexFilter/decided-only-when-justified")
 m("C10","prec-too-small-for-domain","bigxy/big_cga.go","const exactPrec = 4200","const exactPrec = 1024","fallback-exact/bigxy.OrientationIndex/Mul")
 # ---- C11
 m("C11","ring-y-at-2","xy/internal/raycrossing/ray-crossing-counter.go","		p1 := geom.Coord(ring[i : i+2])","		p1 := geom.Coord(ring[i+1 : i+3])","stride-discipline/xy/internal/raycrossing.LocatePointInRing")
